@@ -50,6 +50,10 @@ def _is_range_full(f, op):
 
 def sites(crate, roots):
     """list of (fn, kind, what, line)"""
+    # formatting impls are called through the function pointers inside fmt::Arguments (format!, to_string, write!), which
+    # the call graph cannot follow: every local Display/Debug impl is taken to be reachable (diagnostics print patterns,
+    # leaves and graph errors; the derive's `debug` feature prints the graph)
+    roots = list(roots) + [f for f in crate.fns.values() if f.impl_trait and re.search(r'fmt::(Display|Debug)>', str(f.impl_trait))]
     reach = crate.reachable_fns(roots, exclude=EXCLUDE_FNS)
     out = []
     for n, f in sorted(reach.items()):
